@@ -266,6 +266,7 @@ class _Env:
             dev = await UpnpFactory(req).async_create_device("http://r:1/d.xml")
             return dev, UpnpEventHandler(NS(), req)
 
+        self._build = build
         self.dev, self.eh = self.loop.run_until_complete(build())
         self.services = [self.dev.services[f"urn:schemas-upnp-org:service:S{i}:1"] for i in range(len(svcs))]
         self.names = [[v["name"] for v in s["vars"]] for s in svcs]
@@ -349,6 +350,32 @@ class _Env:
         _, _, fut = self.parked.pop()
         self.pending[v].append((task, fut))
         return ["started"]
+
+    def probe_second_handler(self, sids):
+        """A second event handler of the same process (a second device object, its own subscriptions) is granted,
+        one after the other, the SIDs in `sids` - SIDs that received NOTIFYs at the first handler without ever being
+        granted there.  Nothing was ever delivered to the second handler, so its services must stay untouched.
+        -> list of (sid, service index, variable, value) that are not None."""
+        dev2, eh2 = self.loop.run_until_complete(self._build())
+        services2 = [dev2.services[f"urn:schemas-upnp-org:service:S{i}:1"] for i in range(len(self.names))]
+        bad = []
+        for n, sid in enumerate(sorted(sids)):
+            v = n % len(services2)
+            task = self.loop.create_task(eh2.async_subscribe(services2[v]))
+            n0 = len(self.parked)
+            self.tick()
+            if len(self.parked) != n0 + 1:
+                task.cancel()
+                self.tick()
+                continue
+            _, _, fut = self.parked.pop()
+            fut.set_result((200, {"sid": sid, "timeout": "Second-1800"}, ""))
+            self.drain(task)
+            for name in self.names[v]:
+                val = services2[v].state_variable(name).value_unchecked
+                if val is not None:
+                    bad.append([sid, v, name, repr(val)[:60]])
+        return bad
 
     def close(self):
         for q in self.pending:
@@ -634,6 +661,38 @@ class Plugin:
         for c in rng.sample(base, min(len(base), 300 if tier != "thorough" else 3000)):
             cases.append({**c, "via_renewal": True})
         return cases
+
+    def impl_search(self, rng, tier):
+        """Implementation-only search for the directly observable part of clause 3 across event handlers: NOTIFYs one
+        handler received for SIDs it never held must not surface at ANOTHER handler of the same process that is later
+        granted such a SID (a backlog shared between handlers would do that).  Never stands in for a theorem."""
+        n = 1200 if tier == "thorough" else 120
+        found, done = [], 0
+        for _ in range(n):
+            case = self._random_case(rng, rng.random() < 0.4)
+            env = _Env(case["svcs"])
+            try:
+                for st in case["steps"]:
+                    if st[0] == "notify":
+                        m = st[1]
+                        task = env.loop.create_task(env.eh.handle_notify(self._headers(m), m["text"]))
+                        env.tick()
+                        env.drain(task)
+                sids = {st[1].get("sid") for st in case["steps"] if st[0] == "notify" and st[1].get("sid")}
+                sids = {x for x in sids if isinstance(x, str) and env.eh.service_for_sid(x) is None}
+                bad = env.probe_second_handler(sids) if sids else []
+            except Exception:  # noqa: BLE001 - this search must not abort the check
+                bad = []
+            finally:
+                env.close()
+            done += 1
+            if bad:
+                notify_only = {"svcs": case["svcs"], "steps": [st for st in case["steps"] if st[0] == "notify"]}
+                found.append(("ungranted_inert", notify_only, {"second_handler_values": bad},
+                              "impl-search: NOTIFYs received by one event handler for a SID it never held were applied "
+                              "by a second handler that was later granted that SID"))
+                break
+        return found, done
 
     # ------------------------------------------------------------------ implementation
     @staticmethod
